@@ -2,7 +2,7 @@
 \* shard) is emitted as a call sequence with the expected results and the expected final observation; the "unless"
 \* invariants attribute every violation of the as-is design to a named deviation
 CONSTANTS Threads = {t1, t2}  KA = {k1, k2, k3}  KB = {}  Cap = 2  MaxCalls = 3  MaxHeld = 2  Fine = FALSE  InitMayFail = TRUE
-          BudgetPages = 3  Ballast = 30  ClearKeepsPinned = FALSE  ClearCountsUnderLock = FALSE  ReleaseOnInitError = FALSE
+          BudgetPages = 3  Ballast = 30  ClearKeepsPinned = FALSE  ClearCountsUnderLock = TRUE  ReleaseOnInitError = TRUE
 CONSTANT Keys <- KeysAll  ShardOf <- ShardsOneTwo
 SYMMETRY Sym
 SPECIFICATION Spec
